@@ -198,6 +198,9 @@ Definition op_table : list (list N * N * (list N -> bool)) :=
   ; ([59], T_SEMICOLON, any_follow)
   ; ([63], T_QUESTION, any_follow)
   ; ([94], T_CARET, any_follow)
+  ; ([64], T_IDENT, fun r => negb (pk_byte r =? 64))
+  ; ([33], T_ILLEGAL, fun r => negb (pk_byte r =? 61))
+  ; ([124], T_ILLEGAL, fun r => negb (pk_byte r =? 124))
   ].
 
 (* tok_ok t sg r: the spelling t, when followed by r, is one token with signature sg *)
@@ -214,6 +217,8 @@ Inductive tok_ok : list N -> sigT -> list N -> Prop :=
     tok_ok (34 :: body ++ [34]) (T_IDENT, body, true) r
 | tok_backtick : forall body r, plain_body 96 body = true -> negb (pk_byte r =? 96) = true ->
     tok_ok (96 :: body ++ [96]) (T_IDENT, body, false) r
+| tok_param : forall body r, plain_body 125 body = true ->
+    tok_ok (123 :: body ++ [125]) (T_PARAM, body, false) r
 | tok_op : forall t k fol r, In (t, k, fol) op_table -> fol r = true ->
     tok_ok t (k, t, false) r.
 
